@@ -43,26 +43,6 @@ uint8_t canary_at(size_t i, unsigned salt) { return (uint8_t)(0xA5 ^ (i * 37) ^ 
 std::string check_size(int codec, const ST::string &text, bool valid, const std::vector<uint8_t> &want, size_t os, bool framed) {
     const long expect = (valid && want.size() <= os) ? (long)want.size() : -1;
     const unsigned salt = (unsigned)os;
-    {
-        // (a) exact-size block: the window ends where the allocation ends; for os==0 a one-past-the-end pointer
-        // (blocks for the small sizes are allocated once and reused: same redzones, no allocator churn in the enumerations)
-        static uint8_t *small_blocks[17];
-        size_t blk = os ? os : 1;
-        uint8_t *p = os <= 16 && small_blocks[os] ? small_blocks[os] : static_cast<uint8_t *>(::malloc(blk));
-        if (os <= 16) small_blocks[os] = p;
-        uint8_t *win = os ? p : p + 1;
-        for (size_t i = 0; i < os; i++) win[i] = canary_at(i, salt);
-        ST_ssize_t r = call_buf(codec, text, win, os);
-        std::string why;
-        if ((long)r != expect) why = std::string(codec_name(codec)) + "(text, buf, " + verif::unum(os) + ") returned " + verif::num(r) + ", expected " + verif::num(expect);
-        else if (r >= 0) {
-            if (r && memcmp(win, want.data(), (size_t)r) != 0) why = std::string(codec_name(codec)) + "(text, buf, " + verif::unum(os) + ") wrote " + verif::units(win, (size_t)r, 16) + ", reference decoding is " + verif::units(want.data(), want.size(), 16);
-            for (size_t i = (size_t)r; i < os && why.empty(); i++)
-                if (win[i] != canary_at(i, salt)) why = std::string(codec_name(codec)) + "(text, buf, " + verif::unum(os) + ") returned " + verif::num(r) + " but changed byte " + verif::unum(i) + " of the buffer";
-        }
-        if (os > 16) ::free(p);
-        if (!why.empty()) return why;
-    }
     if (framed) {
         // (b) window inside a canary-filled frame: independent of the sanitizer
         const size_t G = 24;
@@ -83,6 +63,26 @@ std::string check_size(int codec, const ST::string &text, bool valid, const std:
                       (inside ? " inside the buffer beyond the returned length" : " OUTSIDE the output_size bytes of the buffer");
         }
         if (os > 16) ::free(f);
+        if (!why.empty()) return why;
+    }
+    {
+        // (a) exact-size block: the window ends where the allocation ends; for os==0 a one-past-the-end pointer
+        // (blocks for the small sizes are allocated once and reused: same redzones, no allocator churn in the enumerations)
+        static uint8_t *small_blocks[17];
+        size_t blk = os ? os : 1;
+        uint8_t *p = os <= 16 && small_blocks[os] ? small_blocks[os] : static_cast<uint8_t *>(::malloc(blk));
+        if (os <= 16) small_blocks[os] = p;
+        uint8_t *win = os ? p : p + 1;
+        for (size_t i = 0; i < os; i++) win[i] = canary_at(i, salt);
+        ST_ssize_t r = call_buf(codec, text, win, os);
+        std::string why;
+        if ((long)r != expect) why = std::string(codec_name(codec)) + "(text, buf, " + verif::unum(os) + ") returned " + verif::num(r) + ", expected " + verif::num(expect);
+        else if (r >= 0) {
+            if (r && memcmp(win, want.data(), (size_t)r) != 0) why = std::string(codec_name(codec)) + "(text, buf, " + verif::unum(os) + ") wrote " + verif::units(win, (size_t)r, 16) + ", reference decoding is " + verif::units(want.data(), want.size(), 16);
+            for (size_t i = (size_t)r; i < os && why.empty(); i++)
+                if (win[i] != canary_at(i, salt)) why = std::string(codec_name(codec)) + "(text, buf, " + verif::unum(os) + ") returned " + verif::num(r) + " but changed byte " + verif::unum(i) + " of the buffer";
+        }
+        if (os > 16) ::free(p);
         if (!why.empty()) return why;
     }
     return std::string();
@@ -159,7 +159,7 @@ std::string render(const Text &x) {
     static const char *why[] = {"valid", "invalid: length", "invalid: '=' misplaced", "invalid: foreign character in the final group", "invalid: foreign character in a non-final group"};
     const char *w = x.codec ? why[f.reject] : (f.valid ? "valid" : (s.size() % 2) ? "invalid: odd length" : "invalid: non-hex character");
     return std::string("C15 ") + codec_name(x.codec) + " text[" + verif::unum(s.size()) + "]=" + verif::quoted(s, 64) + " " + w + ", implied length " + verif::num(f.implied) +
-           (x.sel >= 0 ? ", extra output_size " + verif::num(x.sel) : std::string()) + "; all of: allocating, null output, output_size 0..d+1 (exact block + canary frame)";
+           (x.sel >= 0 ? ", extra output_size " + verif::num(x.sel) : std::string()) + "; all of: allocating, null output, caller buffers of every size below, at and above d (exact block + canary frame)";
 }
 
 void classify(const Text &x, Case &c) {
@@ -301,7 +301,7 @@ long verif_enumerate(int shard, int nshards, int tier, verif::EnumReport &r) {
         }
         return true;
     };
-    auto sample = [&]() { if (r.samples.size() < 2) r.samples.push_back(render(x)); };
+    auto sample = [&](int which) { if (shard == which && r.samples.empty()) r.samples.push_back(render(x)); };   // one sample per sub-enumeration
 
     // E1: base64, every string of length 0..8 over the class representatives
     {
@@ -317,7 +317,7 @@ long verif_enumerate(int shard, int nshards, int tier, verif::EnumReport &r) {
             uint8_t t[8];
             for (int i = L - 1; i >= 0; i--) { t[i] = cls[v % K]; v /= K; }
             if (!run(1, t, (size_t)L)) return r.evaluations;
-            if (L == 8 && (idx % 400009) == 3) sample();
+            if (L == 8 && (idx % 400009) == 3 + 16 * 7) sample(0);
         }
         if (shard == 0) r.exhausted.push_back(std::string("base64: all ") + verif::unum(total) + " strings of length 0..8 over " + (tier ? "{'A','/','=',NUL,0x80,'!','z','-'}" : "{'A','/','=',NUL,0x80,'!','z'}") +
                                               " x (allocating, null output, output_size 0..d+1 and roomy)");
@@ -331,6 +331,7 @@ long verif_enumerate(int shard, int nshards, int tier, verif::EnumReport &r) {
             uint64_t v = idx; uint8_t t[12];
             for (int i = 11; i >= 0; i--) { t[i] = cls[v % K]; v /= K; }
             if (!run(1, t, 12)) return r.evaluations;
+            if (idx % 1000003 == 17 + 16 * 20) sample(1);
         }
         if (shard == 0) r.exhausted.push_back(std::string("base64: all ") + verif::unum(total) + " strings of length 12 (three groups) over " + (tier ? "{'A','=','!','/'}" : "{'A','=','!'}"));
     }
@@ -349,7 +350,7 @@ long verif_enumerate(int shard, int nshards, int tier, verif::EnumReport &r) {
                 for (const char *fg : finals) for (const char *pre : prefixes) {
                     std::string s = std::string(pre) + fg; s[strlen(pre) + p] = (char)v;
                     if (!run(1, (const uint8_t *)s.data(), s.size())) return r.evaluations;
-                    if (v == shard && p == 2 && pre[0] && fg[3] == '=' && fg[2] != '=') sample();
+                    if (p == 2 && pre[0] && fg[3] == '=' && fg[2] != '=') sample(2);
                 }
                 for (const char *ng : nonfinal) for (int k = 0; k < 3; k++) for (const char *pre : prefixes) {
                     std::string s = std::string(pre) + ng + finals[k]; s[strlen(pre) + p] = (char)v;
@@ -370,6 +371,7 @@ long verif_enumerate(int shard, int nshards, int tier, verif::EnumReport &r) {
                 if (!run(1, (const uint8_t *)s2.data(), s2.size())) return r.evaluations;
                 std::string s3 = std::string("QUJD") + "QUI="; s3[p] = (char)v; s3[q] = (char)w;
                 if (!run(1, (const uint8_t *)s3.data(), s3.size())) return r.evaluations;
+                if (p == 1 && q == 3 && w == '=') sample(3);
             }
         }
         if (shard == 0) {
@@ -386,7 +388,7 @@ long verif_enumerate(int shard, int nshards, int tier, verif::EnumReport &r) {
             uint8_t u[4] = {'7', 'f', (uint8_t)a, (uint8_t)b};
             if (!run(0, u, 4)) return r.evaluations;
             if (!run(0, u + 1, 3)) return r.evaluations;                 // odd length, arbitrary bytes
-            if (a == shard && b == 'e') sample();
+            if (b == 'E') sample(4);
         }
         static const uint8_t hc[] = {'0', '9', 'a', 'f', 'A', 'F', 'g', 'G', '@', '`', '/', ':', 0x00, 0x80, 0xFF, ' '};
         const int maxL = tier ? 5 : 4;
@@ -399,6 +401,7 @@ long verif_enumerate(int shard, int nshards, int tier, verif::EnumReport &r) {
             for (int i = L - 1; i >= 0; i--) { t[i] = hc[v % 16]; v /= 16; }
             if (L == 2 || (L == 3 && t[0] == 'f')) continue;            // part of E3
             if (!run(0, t, (size_t)L)) return r.evaluations;
+            if (L == 4 && (v = idx % 4099) == 5 + 16 * 3) sample(5);
         }
         if (shard == 0) {
             r.exhausted.push_back("hex: all 65536 two-character strings alone, before \"C0\" and after \"7f\"; all 65536 three-character strings 'f'xy (odd length)");
